@@ -260,13 +260,13 @@ Definition transform_redact (value : bytes) : outcome tr_result :=
   end.
 
 (* ---- correspondence entry point ----
-   kind 0: sargs = [field value]; output as described in harness/c14.go:
+   kind 0: sargs = [field value]; kind 1: sargs = field values of a sequence of records;
+   output as described in harness/c14.go:
      skip | none:<c> | kept:<first>,<c> | red<k>:<first>,<n>,<c>:<hex of new value> | panic *)
 Definition dec_nat (n : nat) : bytes := dec_of_Z (Z.of_nat n).
 Definition bool_digit (b : bool) : bytes := if b then [49]%N else [48]%N.
 
-Definition run_case_C14 (c : case) : bytes :=
-  let value := sarg c 0 in
+Definition out_one (value : bytes) : bytes :=
   match value with
   | [] => [115;107;105;112]%N                                                (* skip *)
   | _ =>
@@ -284,3 +284,10 @@ Definition run_case_C14 (c : case) : bytes :=
     | Panic _ => str_panic
     end
   end.
+
+(* kind 1: a sequence of records through one transform instance: the transform keeps no state, so
+   the outputs are those of the single values, "seq:" o1 ";" o2 ... *)
+Definition run_case_C14 (c : case) : bytes :=
+  if (c_kind c =? 1)%N
+  then [115;101;113]%N ++ colon :: join 59%N (map out_one (c_sargs c))
+  else out_one (sarg c 0).
